@@ -19,6 +19,7 @@ Bad(e) ==
          \cup { c \in {"RepeatRepeatsResult"}  : ~e.repeat_same }
     [] e.ev = "Mutation" -> { c \in {"ArgumentsUnchanged"} : ~e.args_unchanged }
     [] e.ev = "Seeded"   -> { c \in {"ReproducibleUnderSeed"} : ~e.same } \cup { c \in {"SeedMatters"} : ~e.differs_other_seed }
+    [] e.ev = "Returned" -> { c \in {"ResultBelongsToCaller"} : ~e.same }
     [] e.ev = "Stale"    -> { c \in {"AnswersForCurrentContents"} : ~e.same }
     [] e.ev = "Layout"   -> { c \in {"MemoryLayoutIndependent"} : ~e.same }
     [] e.ev = "Style"    -> { c \in {"ImportStyleIndependent"} : e.digest_package # e.digest_flat }
